@@ -94,6 +94,7 @@ type IV struct {
 	// CallSummary gives the interval of a call result for callees with a verified summary.
 	CallSummary func(c *ssa.Call, arg func(ssa.Value) Itv) (Itv, bool)
 	inCallee    map[*ssa.Function]bool
+	nwCache     map[*ssa.Global]bool
 }
 
 func NewIV(w *World, tb *TB) *IV {
@@ -712,6 +713,19 @@ func (iv *IV) lenBounds(x ssa.Value, b *ssa.BasicBlock, depth int) (lo, hi *big.
 		}
 	case *ssa.Convert:
 		return iv.lenBounds(x.X, b, depth+1)
+	case *ssa.UnOp:
+		// a package-level map / slice literal that no function outside initialisation writes has its literal size
+		if g, ok := x.X.(*ssa.Global); ok && x.Op == token.MUL && g.Pkg != nil && iv.W != nil && iv.neverWritten(g) {
+			if e, info := iv.W.GlobalInit(g.Pkg.Pkg.Path(), g.Name()); e != nil {
+				if lit := EvalLit(e, info); lit != nil && (lit.Kind == "map" || lit.Kind == "list") {
+					n := len(lit.Elems)
+					if lit.Kind == "map" {
+						n = len(lit.Keys)
+					}
+					return bi(int64(n)), bi(int64(n))
+				}
+			}
+		}
 	case *ssa.Slice:
 		if at, ok := x.X.Type().Underlying().(*types.Pointer); ok {
 			if arr, ok := at.Elem().Underlying().(*types.Array); ok && x.Low == nil && x.High == nil {
@@ -738,6 +752,59 @@ func (iv *IV) lenBounds(x ssa.Value, b *ssa.BasicBlock, depth int) (lo, hi *big.
 	return nil, nil
 }
 
+// neverWritten: no module function outside package initialisation stores into, updates or deletes from the global.
+func (iv *IV) neverWritten(g *ssa.Global) bool {
+	if iv.nwCache == nil {
+		iv.nwCache = map[*ssa.Global]bool{}
+	}
+	if v, ok := iv.nwCache[g]; ok {
+		return v
+	}
+	ok := true
+	for _, f := range iv.W.ModuleFuncs() {
+		if isInit(f) {
+			continue
+		}
+		EachInstr(f, func(in ssa.Instruction) {
+			for _, op := range operandsOf(in) {
+				if op != ssa.Value(g) {
+					continue
+				}
+				// any use of the global's address other than a plain load may write it
+				if u, isLoad := in.(*ssa.UnOp); isLoad && u.Op == token.MUL {
+					// the loaded map/slice value must itself not be written: map updates, index stores, appends
+					if refs := u.Referrers(); refs != nil {
+						for _, r := range *refs {
+							switch y := r.(type) {
+							case *ssa.MapUpdate:
+								if y.Map == ssa.Value(u) {
+									ok = false
+								}
+							case *ssa.IndexAddr:
+								if rr := y.Referrers(); rr != nil {
+									for _, q := range *rr {
+										if st, isSt := q.(*ssa.Store); isSt && st.Addr == ssa.Value(y) {
+											ok = false
+										}
+									}
+								}
+							case ssa.CallInstruction:
+								if bu, isB := y.Common().Value.(*ssa.Builtin); isB && (bu.Name() == "delete" || bu.Name() == "clear" || bu.Name() == "append") {
+									ok = false
+								}
+							}
+						}
+					}
+					continue
+				}
+				ok = false
+			}
+		})
+	}
+	iv.nwCache[g] = ok
+	return ok
+}
+
 // SymBound: v <= Base + Off (upper) or v >= Base + Off (lower), with Base an origin term string.
 type SymBound struct {
 	Base string
@@ -746,14 +813,41 @@ type SymBound struct {
 }
 
 // SymUpper computes a symbolic upper bound v <= base + off.
-func (iv *IV) SymUpper(v ssa.Value, depth int) SymBound {
+func (iv *IV) SymUpper(v ssa.Value, depth int) SymBound { return iv.SymUpperAt(v, nil, depth) }
+
+// SymUpperAt: the bound holds at block at (nil: anywhere). Inside the body of a range loop over a collection X
+// that is not modified meanwhile, a counter started at 0 and incremented once per iteration is at most len(X)-1.
+func (iv *IV) SymUpperAt(v ssa.Value, at *ssa.BasicBlock, depth int) SymBound {
 	if depth > 8 {
 		return SymBound{}
+	}
+	if ph, ok := v.(*ssa.Phi); ok && at != nil {
+		if ind := InductionOf(ph); ind != nil && ind.Step == 1 && len(ind.Inits) == 1 && isConstInt(ind.Inits[0], 0) {
+			h := ph.Block()
+			if iff, ok := h.Instrs[len(h.Instrs)-1].(*ssa.If); ok {
+				if ex, ok := iff.Cond.(*ssa.Extract); ok && ex.Index == 0 {
+					if nx, ok := ex.Tuple.(*ssa.Next); ok {
+						if rg, ok := nx.Iter.(*ssa.Range); ok && (h.Succs[0] == at || h.Succs[0].Dominates(at)) && len(h.Succs[0].Preds) == 1 {
+							// exactly one increment per iteration: one back edge
+							back := 0
+							for _, p := range h.Preds {
+								if h.Dominates(p) {
+									back++
+								}
+							}
+							if back == 1 {
+								return SymBound{"len(" + iv.TB.Of(rg.X).String() + ")", -1, true}
+							}
+						}
+					}
+				}
+			}
+		}
 	}
 	switch x := v.(type) {
 	case *ssa.BinOp:
 		if c, ok := constInt(x.Y); ok && c.IsInt64() {
-			s := iv.SymUpper(x.X, depth+1)
+			s := iv.SymUpperAt(x.X, at, depth+1)
 			if s.OK {
 				switch x.Op {
 				case token.SUB:
@@ -767,7 +861,7 @@ func (iv *IV) SymUpper(v ssa.Value, depth int) SymBound {
 		if ind := InductionOf(x); ind != nil && ind.Mono < 0 {
 			var r SymBound
 			for i, in := range ind.Inits {
-				s := iv.SymUpper(in, depth+1)
+				s := iv.SymUpperAt(in, at, depth+1)
 				if !s.OK {
 					return SymBound{}
 				}
@@ -783,7 +877,7 @@ func (iv *IV) SymUpper(v ssa.Value, depth int) SymBound {
 		}
 	case *ssa.Convert:
 		if valuePreserving(x.X.Type(), x.Type(), iv.W) {
-			return iv.SymUpper(x.X, depth+1)
+			return iv.SymUpperAt(x.X, at, depth+1)
 		}
 	}
 	t := iv.TB.Of(v)
